@@ -67,6 +67,8 @@ Definition obj_path (f : fmt) (raw : bool) (a : arr) : bool :=
   existsb num_big64 (arr_nums a) || (64 <=? nw f) ||
   match conv_factor_int f raw, a with
   | Some k, AI64 l => (2^63 <=? k) || existsb (fun z => 2^63 <=? Z.abs z * k) l
+  | Some k, AU64 l => if raw then false          (* raw unsigned codes keep their reinterpretation as int64 *)
+                      else (2^63 <=? k) || existsb (fun z => 2^63 <=? Z.abs z * k) l
   | Some k, AObj l => (2^63 <=? k) || existsb (fun x => 2^63 <=? num_abs_int x * k) l
   | _, _ => false
   end.
